@@ -93,8 +93,9 @@ def run(P: Program, rep: Report):
     rep.count("internal_error_raise_sites", n_internal)
 
     # ---------------------------------------------------------------- R5 writer exhaustiveness
-    rep.rule("C01.R5", "every concrete Block subclass is handled by an isinstance arm of the writer's block dispatch before "
-                       "the `raise ValueError` arm, and failed blocks reach the failed-block serialiser")
+    rep.rule("C01.R5", "every concrete Block subclass is written by write() without an exception and in its own form: the text of a "
+                       "one-block library carries the block's own content (type / key / fields, key = value, preamble, comment text; for "
+                       "every failed-block class the raw text under the configured comment)")
     common.writer_dispatch(P, rep, "C01.R5")
 
     # ---------------------------------------------------------------- R6 stored errors are copy-safe
@@ -106,11 +107,23 @@ def run(P: Program, rep: Report):
     # ---------------------------------------------------------------- R7 write path on parsed libraries
     rep.rule("C01.R8", "abstract run of the default parse stack (string resolution, enclosing removal) over a library holding every "
                        "block class with unknown string values: no path raises")
-    common.parse_stack_never_raises(P, rep, "C01.R8")
+    deferred = None
+    try:
+        common.parse_stack_never_raises(P, rep, "C01.R8")
+    except AnalysisError as e_:
+        deferred = e_            # the abstract run got lost (e.g. an unbounded loop over unknown values): the concrete runs still decide
+        common.parse_stack_terminates(P, rep, "C01.R8")
 
     rep.rule("C01.R7", "abstract run of write_string (default stack) over a library holding one block of every class the "
                        "splitter / Library can produce: no path raises")
     common.write_string_never_raises(P, rep, "C01.R7")
+
+    rep.rule("C01.R10", "the library the splitter adds to never raises for keys that look alike: entries / strings whose keys differ only in "
+                        "letter case (or by case folding, or a trailing blank) are added as distinct live blocks")
+    common.keys_are_exact(P, rep, "C01.R10")
+
+    if deferred is not None:
+        raise deferred
 
     rep.rule("C01.R9", "no unsafe memoisation in the modules this property rests on: a function decorated with lru_cache / cache / "
                       "cached_property neither takes nor returns a mutable object (else later calls see stale or shared results)")
